@@ -524,92 +524,197 @@ var wildAtoms = []string{"$", "(A)$", "(B)$", "(S)$", "(K)$", "(L)$", "(P)$", "(
 	"len($)", "len((L)$)", "len((P)$)", "len((M)$)", "len((S)$)", "regexp('^a',(S)$)", "regexp('^a')", "regexp('^a',(P)$)", "in($,1,2)", "in((S)$,'a')", "in((L)$,1)", "in((P)$,nil)", "in((L)$,(L)$)", "in((M)$,1,(M)$)", "in((N)$,(N)$)"}
 var wildOps = []string{"+", "-", "*", "/", "%", "<", "<=", ">", ">=", "==", "!=", "&&", "||"}
 
+type wild struct {
+	A int
+	B float64
+	S string
+	K bool
+	L []int
+	P *int
+	Q *string
+	M map[string]int
+	N interface{}
+}
+
+// wildVals is one drawn assignment of the fields of wild (plus the validated int field X).
+type wildVals struct {
+	A          int
+	B          float64
+	S          string
+	K          bool
+	Lset       bool
+	Pset       bool
+	P          int
+	Qset, Mset bool
+	N, X       int
+}
+
+func drawWildVals(t *rapid.T) *wildVals {
+	v := &wildVals{}
+	v.A = rapid.SampledFrom([]int{0, 1, -1, 7}).Draw(t, "A")
+	v.B = rapid.SampledFrom([]float64{0, 0.5, -0.5, 3}).Draw(t, "B")
+	v.S = rapid.SampledFrom([]string{"", "a", "0.5", "é"}).Draw(t, "S")
+	v.K = rapid.Bool().Draw(t, "K")
+	v.Lset = rapid.Bool().Draw(t, "Lset")
+	v.Pset = rapid.Bool().Draw(t, "Pset")
+	if v.Pset {
+		v.P = rapid.SampledFrom([]int{0, 1, -3}).Draw(t, "P")
+	}
+	v.Qset = rapid.Bool().Draw(t, "Qset")
+	v.Mset = rapid.Bool().Draw(t, "Mset")
+	v.N = rapid.IntRange(0, 4).Draw(t, "N")
+	v.X = rapid.SampledFrom([]int{0, 1, 2}).Draw(t, "X")
+	return v
+}
+
+// buildWild makes a fresh struct type (so the expression is compiled afresh) carrying vd:expr on X.
+func buildWild(expr string, v *wildVals) reflect.Value {
+	base := reflect.TypeOf(wild{})
+	var fields []reflect.StructField
+	for i := 0; i < base.NumField(); i++ {
+		fields = append(fields, base.Field(i))
+	}
+	fields = append(fields, reflect.StructField{Name: "X", Type: reflect.TypeOf(0), Tag: reflect.StructTag("vd:" + strconv.Quote(expr))})
+	obj := reflect.New(reflect.StructOf(fields))
+	e := obj.Elem()
+	e.Field(0).SetInt(int64(v.A))
+	e.Field(1).SetFloat(v.B)
+	e.Field(2).SetString(v.S)
+	e.Field(3).SetBool(v.K)
+	if v.Lset {
+		e.Field(4).Set(reflect.ValueOf([]int{1, 0}))
+	}
+	if v.Pset {
+		x := v.P
+		e.Field(5).Set(reflect.ValueOf(&x))
+	}
+	if v.Qset {
+		q := "q"
+		e.Field(6).Set(reflect.ValueOf(&q))
+	}
+	if v.Mset {
+		e.Field(7).Set(reflect.ValueOf(map[string]int{"a": 1}))
+	}
+	switch v.N {
+	case 1:
+		e.Field(8).Set(reflect.ValueOf([]string{"n"}))
+	case 2:
+		e.Field(8).Set(reflect.ValueOf(map[string]bool{}))
+	case 3:
+		e.Field(8).Set(reflect.ValueOf(struct{ F []int }{}))
+	case 4:
+		e.Field(8).Set(reflect.ValueOf(1.5))
+	}
+	e.Field(9).SetInt(int64(v.X))
+	return obj
+}
+
+// wildAccepts validates and reports (accepted, panic text).
+func wildAccepts(expr string, v *wildVals) (acc bool, pan string) {
+	obj := buildWild(expr, v)
+	defer func() {
+		if r := recover(); r != nil {
+			pan = fmt.Sprintf("%v\n%s", r, debug.Stack())
+		}
+	}()
+	return binding.Validate(obj.Interface()) == nil, ""
+}
+
+func drawWildExpr(t *rapid.T, maxAtoms int) (string, int) {
+	n := rapid.IntRange(1, maxAtoms).Draw(t, "nAtoms")
+	var sb strings.Builder
+	prev := ""
+	for i := 0; i < n; i++ {
+		if i > 0 {
+			sb.WriteString(rapid.SampledFrom([]string{"", " "}).Draw(t, "sp") + rapid.SampledFrom(wildOps).Draw(t, "op") + rapid.SampledFrom([]string{"", " "}).Draw(t, "sp"))
+		}
+		a := rapid.SampledFrom(wildAtoms).Draw(t, "atom")
+		if i > 0 && rapid.IntRange(0, 3).Draw(t, "sameAsPrevious") == 0 {
+			a = prev // x op x: both operands have the same dynamic type (two slices, two maps, two nil pointers)
+		}
+		prev = a
+		switch rapid.IntRange(0, 5).Draw(t, "wrap") {
+		case 0:
+			a = "(" + a + ")"
+		case 1:
+			a = "!" + a
+		case 2:
+			a = "-(" + a + ")"
+		}
+		sb.WriteString(a)
+	}
+	return sb.String(), n
+}
+
 func TestC20Wild(t *testing.T) {
 	rec := ev.New("wild-nopanic")
-	type wild struct {
-		A int
-		B float64
-		S string
-		K bool
-		L []int
-		P *int
-		Q *string
-		M map[string]int
-		N interface{}
-	}
-	base := reflect.TypeOf(wild{})
 	rapid.Check(t, func(t *rapid.T) {
-		n := rapid.IntRange(1, 5).Draw(t, "nAtoms")
-		var sb strings.Builder
-		prev := ""
-		for i := 0; i < n; i++ {
-			if i > 0 {
-				sb.WriteString(rapid.SampledFrom([]string{"", " "}).Draw(t, "sp") + rapid.SampledFrom(wildOps).Draw(t, "op") + rapid.SampledFrom([]string{"", " "}).Draw(t, "sp"))
-			}
-			a := rapid.SampledFrom(wildAtoms).Draw(t, "atom")
-			if i > 0 && rapid.IntRange(0, 3).Draw(t, "sameAsPrevious") == 0 {
-				a = prev // x op x: both operands have the same dynamic type (two slices, two maps, two nil pointers)
-			}
-			prev = a
-			switch rapid.IntRange(0, 5).Draw(t, "wrap") {
-			case 0:
-				a = "(" + a + ")"
-			case 1:
-				a = "!" + a
-			case 2:
-				a = "-(" + a + ")"
-			}
-			sb.WriteString(a)
+		expr, n := drawWildExpr(t, 5)
+		v := drawWildVals(t)
+		rec.Case(n >= 2, ev.HashString(expr, fmt.Sprintf("%+v", *v)), "wild")
+		if _, pan := wildAccepts(expr, v); pan != "" {
+			t.Fatalf("binding.Validate panicked on vd:%q with %+v: %s", expr, *v, pan)
 		}
-		expr := sb.String()
-		var fields []reflect.StructField
-		for i := 0; i < base.NumField(); i++ {
-			fields = append(fields, base.Field(i))
-		}
-		fields = append(fields, reflect.StructField{Name: "X", Type: reflect.TypeOf(0), Tag: reflect.StructTag("vd:" + strconv.Quote(expr))})
-		typ := reflect.StructOf(fields)
-		obj := reflect.New(typ)
-		e := obj.Elem()
-		e.Field(0).SetInt(int64(rapid.SampledFrom([]int{0, 1, -1, 7}).Draw(t, "A")))
-		e.Field(1).SetFloat(rapid.SampledFrom([]float64{0, 0.5, -0.5, 3}).Draw(t, "B"))
-		e.Field(2).SetString(rapid.SampledFrom([]string{"", "a", "0.5", "é"}).Draw(t, "S"))
-		e.Field(3).SetBool(rapid.Bool().Draw(t, "K"))
-		if rapid.Bool().Draw(t, "Lset") {
-			e.Field(4).Set(reflect.ValueOf([]int{1, 0}))
-		}
-		if rapid.Bool().Draw(t, "Pset") {
-			x := rapid.SampledFrom([]int{0, 1, -3}).Draw(t, "P")
-			e.Field(5).Set(reflect.ValueOf(&x))
-		}
-		if rapid.Bool().Draw(t, "Qset") {
-			s := "q"
-			e.Field(6).Set(reflect.ValueOf(&s))
-		}
-		if rapid.Bool().Draw(t, "Mset") {
-			e.Field(7).Set(reflect.ValueOf(map[string]int{"a": 1}))
-		}
-		switch rapid.IntRange(0, 4).Draw(t, "N") {
-		case 1:
-			e.Field(8).Set(reflect.ValueOf([]string{"n"}))
-		case 2:
-			e.Field(8).Set(reflect.ValueOf(map[string]bool{}))
-		case 3:
-			e.Field(8).Set(reflect.ValueOf(struct{ F []int }{}))
-		case 4:
-			e.Field(8).Set(reflect.ValueOf(1.5))
-		}
-		e.Field(9).SetInt(int64(rapid.SampledFrom([]int{0, 1, 2}).Draw(t, "X")))
-		rec.Case(n >= 2, ev.HashString(expr, fmt.Sprint(e.Interface())), "wild")
-		func() {
-			defer func() {
-				if r := recover(); r != nil {
-					t.Fatalf("binding.Validate panicked on vd:%q with %+v: %v\n%s", expr, e.Interface(), r, debug.Stack())
-				}
-			}()
-			_ = binding.Validate(obj.Interface())
-		}()
 		if rec.WantSample() && n >= 3 {
 			rec.Sample(map[string]interface{}{"expr": expr})
+		}
+	})
+}
+
+// Typing of the comparison operators on operands of ANY kind (nil pointers, strings against numbers,
+// NaN from a division by zero, slices, booleans). No reference semantics exists for ill-typed
+// operands, so the check states only what the documented names of the operators mean (README:
+// ">=" is "ge", ">" is "gt", "==" is "eq", "!=" is "ne"), as implications between verdicts:
+//
+//	a >= b accepted  =>  a > b || a == b accepted      (greater-or-equal means greater, or equal)
+//	a <= b accepted  =>  a < b || a == b accepted
+//	a >  b accepted  =>  a >= b accepted, a < b rejected
+//	a <  b accepted  =>  a <= b accepted
+//	a != b accepted  <=> !(a == b) accepted
+//
+// The converses are NOT demanded (hertz: nil == nil holds but nil >= nil does not), nor is any
+// symmetry between a op b and b op' a (string operands are coerced differently on the two sides).
+func TestC20Relations(t *testing.T) {
+	rec := ev.New("wild-relations")
+	operands := append(append([]string(nil), wildAtoms...), "10/$", "(A)$/0", "(A)$%0", "1/(B)$", "(S)$+'a'", "(A)$+(B)$", "-(P)$", "!(K)$", "(P)$+1", "(Q)$", "(N)$")
+	rapid.Check(t, func(t *rapid.T) {
+		a := "(" + rapid.SampledFrom(operands).Draw(t, "a") + ")"
+		b := "(" + rapid.SampledFrom(operands).Draw(t, "b") + ")"
+		v := drawWildVals(t)
+		rec.Case(true, ev.HashString(a, b, fmt.Sprintf("%+v", *v)), "relations")
+		acc := func(e string) bool {
+			ok, pan := wildAccepts(e, v)
+			if pan != "" {
+				t.Fatalf("binding.Validate panicked on vd:%q with %+v: %s", e, *v, pan)
+			}
+			return ok
+		}
+		ge, gt, le, lt := acc(a+">="+b), acc(a+">"+b), acc(a+"<="+b), acc(a+"<"+b)
+		eq, ne, notEq := acc(a+"=="+b), acc(a+"!="+b), acc("!("+a+"=="+b+")")
+		gtOrEq, ltOrEq := acc(a+">"+b+"||"+a+"=="+b), acc(a+"<"+b+"||"+a+"=="+b)
+		fail := func(f string, x ...interface{}) {
+			t.Fatalf("operands a=%s b=%s with %+v: %s (verdicts: >= %v, > %v, <= %v, < %v, == %v, != %v)", a, b, *v, fmt.Sprintf(f, x...), ge, gt, le, lt, eq, ne)
+		}
+		if ge && !gtOrEq {
+			fail("a>=b is accepted although neither a>b nor a==b is")
+		}
+		if le && !ltOrEq {
+			fail("a<=b is accepted although neither a<b nor a==b is")
+		}
+		if gt && (!ge || lt) {
+			fail("a>b is accepted but a>=b is not, or a<b is too")
+		}
+		if lt && !le {
+			fail("a<b is accepted but a<=b is not")
+		}
+		if ne != notEq || ne == eq {
+			fail("a!=b and !(a==b) disagree")
+		}
+		if gtOrEq != (gt || eq) || ltOrEq != (lt || eq) {
+			fail("|| of two verdicts is not their disjunction")
+		}
+		if rec.WantSample() {
+			rec.Sample(map[string]interface{}{"a": a, "b": b})
 		}
 	})
 }
